@@ -1,5 +1,5 @@
 (* entry points for the pure string functions *)
-From PM Require Import Model.EntryBase Model.Nvra Model.ReleaseId Base.Regex Gen.Regexes Gen.Tables.
+From PM Require Import Model.EntryBase Model.Nvra Model.ReleaseId Model.ComposeId Base.Regex Gen.Regexes Gen.Tables.
 
 Definition p_nvra (p : nvra) : pyval :=
   PDict [(lit "name", PStr (n_name p)); (lit "epoch", PN (n_epoch p)); (lit "version", PStr (n_version p));
@@ -84,6 +84,32 @@ Definition ep_valid3 (v : pyval) : pyval :=
   | _ => bad_input
   end.
 
+Definition ep_create_compose_id (v : pyval) : pyval :=
+  match v with
+  | PList [PStr rs; PStr rv; rt; PBool lay; bs; bv; bt; PList vars; PStr date; PStr ct; PInt rsp] =>
+      match get_opt_str rt, get_opt_str bs, get_opt_str bv, get_opt_str bt, get_strs vars with
+      | Some rt', Some bs', Some bv', Some bt', Some vars' =>
+          let a := {| r_short := rs; r_version := rv; r_type := rt'; r_layered := lay;
+                      b_short := bs'; b_version := bv'; b_type := bt'; top_variants := vars';
+                      c_date := date; c_type := ct; c_respin := Z.to_N rsp |} in
+          out_result (fun id => PList [PStr id; PBool (compose_id_valid id)]) (create_compose_id a)
+      | _, _, _, _, _ => bad_input
+      end
+  | _ => bad_input
+  end.
+
+Definition ep_get_date_type_respin (v : pyval) : pyval :=
+  match v with
+  | PStr s => out_result (fun o => match o with
+                                   | None => PNone
+                                   | Some (d, t, r) => PList [PStr d; PStr t; PN r]
+                                   end) (get_date_type_respin s)
+  | _ => bad_input
+  end.
+
+Definition ep_compose_id_valid (v : pyval) : pyval :=
+  match v with PStr s => PBool (compose_id_valid s) | _ => bad_input end.
+
 Definition entries_str : list (str * (pyval -> pyval)) :=
   [ (lit "parse_nvra", ep_parse_nvra);
     (lit "parse_nvra_re", ep_parse_nvra_re);
@@ -92,4 +118,7 @@ Definition entries_str : list (str * (pyval -> pyval)) :=
     (lit "rx_match", ep_rx_match);
     (lit "create_release_id", ep_create_release_id);
     (lit "parse_release_id", ep_parse_release_id);
-    (lit "valid3", ep_valid3) ].
+    (lit "valid3", ep_valid3);
+    (lit "create_compose_id", ep_create_compose_id);
+    (lit "get_date_type_respin", ep_get_date_type_respin);
+    (lit "compose_id_valid", ep_compose_id_valid) ].
